@@ -37,7 +37,7 @@ import (
 func main() {
 	var failing []string
 	total := 0
-	handlers := []string{"BExit", "AEnter", "BEnd", "AState"}
+	handlers := []string{"BExit", "AEnter", "AnyEnter", "BEnd", "AState", "AnyState"}
 	for _, hname := range handlers {
 		for binding := 0; binding < 2; binding++ {
 			for _, fault := range []string{"panic-error", "panic-string", "stall"} {
@@ -98,7 +98,7 @@ func main() {
 					act := append(am.S{}, m.ActiveStates(nil)...)
 					sort.Strings(act)
 					got := strings.Join(act, ",")
-					negotiation := hname == "BExit" || hname == "AEnter"
+					negotiation := hname == "BExit" || hname == "AEnter" || hname == "AnyEnter"
 					isPanic := fault != "stall"
 					want := ""
 					switch {
@@ -110,6 +110,10 @@ func main() {
 						want = "B,Exception"
 					case hname == "BEnd":
 						want = "B"
+					case hname == "AnyState" && isPanic:
+						want = "A,Exception" // every per-state final handler completed: nothing to roll back
+					case hname == "AnyState":
+						want = "A"
 					case isPanic:
 						want = "Exception"
 					default:
